@@ -113,7 +113,13 @@ def wide(s):
     u = s.encode("utf-16le")
     return struct.pack("<I", len(u) // 2) + u
 
-def write_xlsb(path, formats, xfs, is_1904, cells, fonts=True):
+def write_xlsb(path, formats, xfs, is_1904, cells, fonts=True, styles=None, short_cols=()):
+    """styles: the bytes of xl/styles.bin (default: Excel's shape of the part — FMTS, FONTS, FILLS,
+    BORDERS, CELLSTYLEXFS, CELLXFS, STYLES ... with colours that hold the byte pairs E9 04 / E7 04,
+    tools/xlsbstyles.py; fonts=False: the two collections only).
+    short_cols: columns (> 0) whose num / rk cell is written as a short cell record (BrtShortReal
+    0x10 / BrtShortRk 0x0D: no column field, the cell stands right of the previous one)."""
+    import xlsbstyles
     wb = (brec(0x0083) +
           brec(0x0099, struct.pack("<II", 1 if is_1904 else 0, 0) + wide("")) +
           brec(0x008F) +
@@ -121,16 +127,12 @@ def write_xlsb(path, formats, xfs, is_1904, cells, fonts=True):
           brec(0x0090) +
           brec(0x009D, struct.pack("<IdB", 0, 0.001, 0)) +
           brec(0x0084))
-    st = brec(0x0116)
-    if formats:
-        st += brec(0x0267, struct.pack("<I", len(formats)))
-        for ifmt, s in formats:
-            st += brec(0x002C, struct.pack("<H", ifmt) + wide(s))
-        st += brec(0x0268)
-    st += brec(0x0269, struct.pack("<I", len(xfs)))
-    for ifmt in xfs:
-        st += brec(0x002F, struct.pack("<HHHHHBBBB", 0, ifmt, 0, 0, 0, 0, 0, 0, 0x10) + b"\0\0")
-    st += brec(0x026A) + brec(0x0117)
+    if styles is not None:
+        st = styles
+    elif fonts:
+        st = xlsbstyles.default_part(list(formats), list(xfs))
+    else:
+        st = xlsbstyles.enc_layout(xlsbstyles.bare_layout(list(formats), list(xfs)))
     sh = (brec(0x0081) + brec(0x0094, struct.pack("<IIII", 0, 0, 0, max(len(cells) - 1, 0))) +
           brec(0x0091) + brec(0x0000, struct.pack("<IIHBBBI", 0, 0, 300, 0, 0, 0, 0)))
     for col, (ixfe, kind, payload) in enumerate(cells):
@@ -138,9 +140,11 @@ def write_xlsb(path, formats, xfs, is_1904, cells, fonts=True):
         # third cell shows its phonetic guide (the flag must not leak into the style index)
         head = struct.pack("<I", col) + struct.pack("<I", (ixfe & 0xFFFFFF) | ((1 if col % 3 == 1 else 0) << 24))
         if kind == "num":
-            sh += brec(0x0005, head + struct.pack("<Q", payload))
+            sh += (brec(0x0010, head[4:] + struct.pack("<Q", payload)) if col > 0 and col in short_cols else
+                   brec(0x0005, head + struct.pack("<Q", payload)))
         elif kind == "rk":
-            sh += brec(0x0002, head + struct.pack("<I", payload))
+            sh += (brec(0x000D, head[4:] + struct.pack("<I", payload)) if col > 0 and col in short_cols else
+                   brec(0x0002, head + struct.pack("<I", payload)))
         elif kind == "fml":
             sh += brec(0x0009, head + struct.pack("<Q", payload) + struct.pack("<HI", 0, 3) + b"\x1e\x01\x00" +
                        struct.pack("<I", 0))
